@@ -1676,14 +1676,18 @@ pub(crate) fn add_sequence_dyn_zip<W, R, T>(
             ),
             move |args, ns, _tca, rt| {
                 let mut seqs = vec![];
+                let mut any_empty = false;
                 for a in args {
+                    // every argument is evaluated (an error in a later one must propagate)
                     let a = xraise!(eval(a, ns, &rt)?);
-                    let seq = to_native!(a, XSequence<W, R, T>);
-                    if seq.is_empty() {
-                        return Ok(manage_native!(XSequence::<W, R, T>::Empty, rt));
+                    if to_native!(a, XSequence<W, R, T>).is_empty() {
+                        any_empty = true;
                     }
                     seqs.push(a);
                     rt.can_afford(&seqs)?
+                }
+                if any_empty {
+                    return Ok(manage_native!(XSequence::<W, R, T>::Empty, rt));
                 }
                 Ok(manage_native!(XSequence::<W, R, T>::Zip(seqs), rt))
             },
